@@ -64,6 +64,78 @@ CHECKS["C18"] = ("exploration",
     "Trusted: the reference codec; twisted's StringTransport. Continuation frames are outside the library's API and not generated.",
     "DESIGN.md section 3 / C18")
 
+def _c(pid, level, technique, engine, text, note):
+    CHECKS[pid] = (level, technique, engine, text, note, "DESIGN.md section 2/3, %s" % pid)
+
+
+_c("C01", "fault_enumeration",
+   "runtime monitor: semantic-state snapshot before/after every _recv_datagram under an adversary injecting enumerated forgery classes into live sessions",
+   "lockstep",
+   "Real client and real server loop exchange traffic in virtual time while an adversary presents, phase by phase (pre-key client, new "
+   "address, established, pending sends, other session, disconnected) and to both roles, every forgery class: forged CRC datagrams for all "
+   "types x counts x inner types, all single-bit flips and truncations of genuine datagrams, header rewrites with/without CRC, wrong-key and "
+   "cross-session ciphertext, reflections, random bytes. The oracle compares the protected state around every receive; genuine datagrams are "
+   "the positive control. Fault classes are enumerated and counted per class/phase/role; inputs inside a class are sampled.",
+   "Trusted: AES-GCM, the monitor's prefix rule for authenticity, the snapshot covering exactly the state the statement names.")
+_c("C02", "fault_enumeration",
+   "runtime monitor: thousands of real handshakes under an on-path attacker; wrappers on the root key's sign() and crypto.ecdh_client, independent ECDSA verification, proof-of-key check at every promotion",
+   "lockstep",
+   "Every byte position of the three handshake datagrams is mutated (3 ways, CRC recomputed) in its own real handshake; structured "
+   "substitutions of token/salt/ephemeral key/signature/root key, re-signing, cross-session replay, wrong challenges, duplication/loss of each "
+   "datagram are enumerated. A pinned client that ends keyed must have used parameters in the set the honest root key signed, and the hello it "
+   "consumed must verify independently; every server promotion must be backed by a datagram that opens under that connection's key to a "
+   "challenge with its token.",
+   "Trusted: ECDSA/ECDH/HKDF of the cryptography package. Cross-session replay of a genuinely signed hello is not counted as forgery.")
+_c("C03", "exploration",
+   "offline/online checker over the wire tap: independent AES-GCM open of every emitted datagram, per-key nonce set, plaintext scan; workloads constructed to make a broken nonce collide",
+   "lockstep",
+   "Every datagram handed to a socket is opened by the monitor itself (nonce = bytes 0..11, AAD = the 20-byte header) and its nonce entered "
+   "into the per-key set; workloads freeze the ack field (silent peer) across the 16-bit wrap, burst within one second, and mirror the "
+   "counters of the two directions so that only the direction magic separates nonces. Exploration of histories; full wraps in thorough.",
+   "Assumes a non-decreasing clock and the protocol's rate cap. A collision that needs >3 wraps within one clock second is out of reach.")
+_c("C04", "fault_enumeration",
+   "history checker over the delivery log (unique payload ids) plus before/after snapshots around every duplicate receive, under duplication, reordering and an adversary replaying recorded datagrams at three distances",
+   "lockstep",
+   "Each delivery is matched to its send; a copy of an accepted datagram must be rejected, counted as dropped and leave the state unchanged. "
+   "Fault classes (network duplicates, reordering, ack loss racing retransmissions, replays right away / beyond the 32-window / beyond both "
+   "windows, message bursts moving the 256-message window) are enumerated and counted.",
+   "One open finding (retransmission older than the 256-message window) is reported as KNOWN-FINDING; see known_findings.json.")
+_c("C05", "fault_enumeration",
+   "bounded-progress monitor: guaranteed sends from all four API entry points, every boundary length per MTU, targeted and random faults, then a healed network; delivery log checked at quiescence or a virtual-time horizon",
+   "lockstep",
+   "Liveness is restated as: delivered within 45 virtual seconds after the network heals while the connection is open. Lengths around every "
+   "boundary are enumerated per MTU for client/server x send/send_guaranteed; targeted loss of the k-th carrying datagram and of acks plus "
+   "seeded profiles (lossy, dup, reorder, slow, very slow, one-way) are enumerated. Undelivered messages are classified by where they are stuck.",
+   "An unbounded 'eventually' cannot be decided by a finite run; the horizon is 40 retry rounds. One open finding (reassembly context purged by age).")
+_c("C06", "exploration",
+   "history checker: delivered payloads byte-identical to sent ones (ids in payloads); wire-shape monitor on fragments (monitor's own decoder); all arrival orders of small fragment sets",
+   "lockstep",
+   "Boundary lengths x retry modes x content classes (incl. content crafted to look like fragment headers of a message in flight) per MTU over "
+   "a lossy/duplicating/reordering network; every arrival order of 2..5 fragments with a duplicate; refusal above the fragmentation limit; "
+   "reassembly contexts matched against messages in flight.",
+   "The payload of exactly the limit (8 MiB) is sent in the thorough tier only.")
+_c("C07", "fault_enumeration",
+   "online reference resolution model compared with wrappers on _handle_ack/_handle_timeout; callback log checked for truthfulness and exactly-once at quiescence; adversary injecting stale, forged and rewritten ack fields",
+   "lockstep",
+   "Every datagram emitted is tracked until the real code resolves it; the model says acked iff an accepted inbound datagram names it, "
+   "timed out within [timeout, timeout + send interval + 2 ticks] otherwise. Callbacks of retry-NONE and guaranteed sends are counted at "
+   "quiescence. Fault classes as in C05 plus stale replays and forged/rewritten ack fields.",
+   "Timing slack of one send interval + two ticks. One open finding (consequence of the C05 finding).")
+_c("C08", "exploration",
+   "contracts against integer ring arithmetic (all values x boundary offsets); class-wide shadow model of BitField; ack fields of every emitted header compared with the monitor's acceptance record",
+   "contracts+lockstep",
+   "Ring: every value (thorough) x offsets near 0 and near half the ring for + - diff newer_than < >. Window: seeded histories for widths "
+   "8..256 judged after every insert (current, every bit, contains over the whole window, duplicate flag). Wire: lockstep sessions where every "
+   "header's ack/ack_bits must equal what the endpoint accepted among the newest 32.",
+   "Numbers presented to a window stay within half the ring, as the statement requires.")
+_c("C09", "exploration",
+   "wrapper on Packet.to_bytes decoding every packet with the real and an independent decoder; per-MTU worlds with queue snapshots around _build_packet_impl (first-fit maximality), MTU bound at the socket, conservation of accepted messages",
+   "lockstep",
+   "Generated header extremes x counts {0,1,2,3,255} x CRC/AES plus all live traffic for the codec; one world per MTU (quick 12, thorough "
+   "every MTU 512..1500) with floods of 254-400 tiny messages, boundary sizes and exact-fit pairs for packing. Exhaustive in MTU (thorough), "
+   "sampled in send sequences.",
+   "Maximality is judged for messages waiting in the send queue; resends not yet due are not counted.")
+
 NOT_YET = {}
 
 
